@@ -35,7 +35,7 @@ Proof.
     [ | rewrite spec_address_hash; destruct (std_payload_cons d Hstd) as (pa & pr & ->); discriminate
       | rewrite spec_address_hash; exact Htb | exact Hp | apply (spec_address_pfx fx net d (Hp net Hn)) ].
   clear Htb Hp.
-  destruct fx as [fw fn fp tb0]. cbn [fx_witver] in Hg.
+  destruct fx as [fw fn fp fa tb0]. cbn [fx_witver] in Hg.
   std_shapes d Hstd; (each_net Hn; (destruct fw, fn, fp;
     first [ guard_false Hg
           | vm_compute; split; [reflexivity|]; eexists; repeat split; reflexivity ])).
@@ -60,7 +60,7 @@ Proof.
     [ | rewrite spec_address_hash; destruct (std_payload_cons d Hstd) as (pa & pr & ->); discriminate
       | rewrite spec_address_hash; exact Htb | exact Hp | apply (spec_address_pfx fx net d (Hp net Hn)) ].
   clear Htb Hp.
-  destruct fx as [fw fn fp tb0]. cbn [fx_witver fx_netobj] in Hw, Ho. subst fw fn.
+  destruct fx as [fw fn fp fa tb0]. cbn [fx_witver fx_netobj] in Hw, Ho. subst fw fn.
   std_shapes d Hstd; (each_net Hn; (destruct fp;
     (vm_compute; split; [reflexivity|]; eexists; repeat split; reflexivity))).
 Qed.
